@@ -9,7 +9,7 @@ globals().update(P.make('C08', 'conv probe: every cut point (connection closed a
 from vlib.core import Group as _Group
 from vlib.props import C20 as _C20
 _g0 = groups
-RULE = RULE + (" | sched probe: every pair of overlapping endings over {peer disconnects, QUIT, Conn.Close by the application, Server.Close, "
+RULE = RULE + (" | tlsclose probe: Server.Close / Conn.Close / Shutdown arrive while a STARTTLS upgrade is logging the plaintext session out (slow Logout, real TLS over loopback): every session exactly one Logout | sched probe: every pair of overlapping endings over {peer disconnects, QUIT, Conn.Close by the application, Server.Close, "
                "Server.Shutdown} with a slow Logout, with and without an open chunked transfer, SMTP and LMTP: the lifecycle judge on the trace")
 
 
@@ -87,6 +87,9 @@ def _proj_lo(case, ans):
 
 
 def groups(tier, rng):
-    return _g0(tier, rng) + [_Group("conv/cut-inside-a-command-line", cutline_cases(tier, rng), project=lambda c, a: cc.project(a, codes="exact", enh=True, drecs="ret"), theorems=THEOREMS),
+    tc = ["tlsclose\t%d\t%s\t%d" % (lm, e, d) for lm in (0, 1) for e in ("close", "connclose", "shutdown") for d in (40, 80)
+          for _ in range(1 if tier == "quick" else 4)]
+    return _g0(tier, rng) + [_Group("tlsclose/server-ended-during-upgrade", tc, project=lambda c, a: a, theorems=THEOREMS),
+                    _Group("conv/cut-inside-a-command-line", cutline_cases(tier, rng), project=lambda c, a: cc.project(a, codes="exact", enh=True, drecs="ret"), theorems=THEOREMS),
                     _Group("sched/overlapping-closes", overlapping_closes(tier, rng), project=_C20.project, theorems=THEOREMS),
                              _Group("sched/close-during-newsession", close_during_newsession(tier, rng), project=_proj_lo, theorems=THEOREMS)]
